@@ -76,11 +76,21 @@ Definition results_of (p : Z) (posts : list (Z * list bool)) : list bool :=
 Definition poster_ids : list Z := map zn (seq 0 nposters).
 
 (* first declaration of a chain id wins, as in the harness *)
-Fixpoint chains_of (ops : list op) (seen : list Z) : list (Z * list beh) :=
+Inductive ckind := KSche | KSimple | KWait.
+
+Fixpoint chains_of (ops : list op) (seen : list Z) : list (Z * (ckind * list beh)) :=
   match ops with
   | [] => []
-  | OChain c t :: r => if zmem c seen then chains_of r seen else (c, t) :: chains_of r (c :: seen)
-  | _ :: r => chains_of r seen
+  | o :: r =>
+      match match o with
+            | OChain c t | OChainB c t => Some (c, (KSche, t))
+            | OSimple c t => Some (c, (KSimple, t))
+            | OWait c t => Some (c, (KWait, t))
+            | _ => None
+            end with
+      | Some (c, kt) => if zmem c seen then chains_of r seen else (c, kt) :: chains_of r (c :: seen)
+      | None => chains_of r seen
+      end
   end.
 
 Definition task_seen (c i : Z) (l : list sev) : bool :=
@@ -112,19 +122,65 @@ Definition all_completed (c : Z) (tasks : list beh) (f : list (Z * Z * Z)) (l : 
                     | EFinal _ _ => true
                     end) l.
 
-Definition chain_ok (stop : bool) (f : list (Z * Z * Z)) (all : list sev) (ct : Z * list beh) : bool :=
-  let evs := chain_events (fst ct) all in
-  if invoked_all amo (snd ct) evs then
-    prefixb ev_eqb evs (spec (snd ct))
-    && (if negb stop && all_completed (fst ct) (snd ct) f evs
-        then list_eqb ev_eqb evs (spec (snd ct)) else true)
+Definition no_invoked_panic (tasks : list beh) (l : list ev) : bool :=
+  invoked_all (fun b => match b with Beh _ _ p => negb p end) tasks l.
+
+Definition has_ret (c : Z) (all : list sev) : bool :=
+  existsb (fun e => match e with SRet d => Z.eqb c d | _ => false end) all.
+
+(* per chain: the log is a prefix of the history function when every invoked task completed
+   at most once, and equal to it (final exactly once) when every invoked task completed
+   exactly once - for the scheduler variant unless the scheduler was stopped, for ExecAndWait
+   unless a task panicked (the panic leaves ExecAndWait: no recover there).  ExecAndWait
+   returned iff final ran. *)
+Definition chain_ok (stop : bool) (f : list (Z * Z * Z)) (all : list sev) (ct : Z * (ckind * list beh)) : bool :=
+  let c := fst ct in
+  let k := fst (snd ct) in
+  let tasks := snd (snd ct) in
+  let evs := chain_events c all in
+  if invoked_all amo tasks evs then
+    prefixb ev_eqb evs (spec tasks)
+    && (let live := match k with
+                    | KSche => negb stop
+                    | KSimple => true
+                    | KWait => no_invoked_panic tasks evs
+                    end in
+        if live && all_completed c tasks f evs
+        then list_eqb ev_eqb evs (spec tasks)
+             && match k with KWait => has_ret c all | _ => true end
+        else true)
+    && match k with
+       | KWait => if has_ret c all then Nat.eqb (finals_in evs) 1 else true
+       | _ => negb (has_ret c all)
+       end
   else true.     (* a task completed twice: outside the property *)
 
-Definition declared (cs : list (Z * list beh)) (e : sev) : bool :=
+Definition declared (cs : list (Z * (ckind * list beh))) (e : sev) : bool :=
   match e with
-  | SExec _ _ => true
-  | SPostFail _ _ => false
-  | STask c _ _ | SFinal c _ _ => zmem c (map fst cs)
+  | SExec _ _ | SMgr _ => true
+  | SPostFail _ _ | SBad _ => false
+  | STask c _ _ | SFinal c _ _ | SRet c | SEsc c | SHang c => zmem c (map fst cs)
+  end.
+
+(* registry: GetSche(n) returns the scheduler of the previous GetSche(n) unless DelSche(n)
+   came in between; otherwise one never seen before *)
+Fixpoint mgr_ok (ops : list op) (per : list (list sev)) (reg : list (Z * Z)) (seen : list Z) : bool :=
+  match ops, per with
+  | o :: r, e :: pr =>
+      match o with
+      | OMgrGet n =>
+          match filter (fun x => match x with SMgr _ => true | _ => false end) e with
+          | [SMgr id] =>
+              match find (fun x => Z.eqb (fst x) n) reg with
+              | Some x => Z.eqb (snd x) id && mgr_ok r pr reg seen
+              | None => negb (zmem id seen) && mgr_ok r pr ((n, id) :: reg) (id :: seen)
+              end
+          | _ => false
+          end
+      | OMgrDel n => mgr_ok r pr (filter (fun x => negb (Z.eqb (fst x) n)) reg) seen
+      | _ => mgr_ok r pr reg seen
+      end
+  | _, _ => true
   end.
 
 Fixpoint conc_blocks_ok (ops : list op) (per : list (list sev)) : bool :=
@@ -157,7 +213,8 @@ Definition monitor_obs (ops : list op) (per : list (list sev)) (dr : list sev)
             else forallb (fun b => b) res
                  && Nat.eqb (length (filter (fun x => Z.eqb (fst x) p) ex)) (posts_by p ops)))
        poster_ids
-  && forallb (chain_ok stop (fired ops per []) all) cs.
+  && forallb (chain_ok stop (fired ops per []) all) cs
+  && mgr_ok ops per [] [].
 
 Definition monitor (c : case) : bool :=
   match snd c with
